@@ -8,6 +8,7 @@ import (
 	"fmt"
 	"io"
 	"runtime"
+	"strings"
 	"sync"
 	"testing"
 	"time"
@@ -604,7 +605,9 @@ func runClose(c c13Case) *vh.Failure {
 					sendReturned <- fmt.Errorf("panic: %v", r)
 				}
 			}()
-			sendReturned <- ch.SendPackage(e.bg, &tds.LanguagePackage{Cmd: "parked"})
+			// (a request of several packets is parked inside QueuePackage, where the full packets
+			// go out, a short one inside SendRemainingPackets)
+			sendReturned <- ch.SendPackage(e.bg, &tds.LanguagePackage{Cmd: "parked" + strings.Repeat("x", 520*(c.Packets-1))})
 		}()
 		if !e.pipe.WaitParkedWrite(1, 2*time.Second) {
 			release()
@@ -909,6 +912,9 @@ func genCase(rt *rapid.T, kind string) c13Case {
 		// bounded, but too slow for this tier (covered by TestSilentPeer in thorough)
 		c.Blocked = c.Logical && rapid.Bool().Draw(rt, "blocked")
 		c.Parked = c.Logical && rapid.IntRange(0, 2).Draw(rt, "parked") == 0
+		if c.Parked {
+			c.Packets = rapid.IntRange(1, 3).Draw(rt, "parked-request-packets")
+		}
 		c.Control = rapid.IntRange(0, 2).Draw(rt, "control") == 0
 		c.ResetFirst = rapid.IntRange(0, 3).Draw(rt, "resetfirst") == 0
 		if rapid.IntRange(0, 3).Draw(rt, "parentcancelled") == 0 {
@@ -916,6 +922,9 @@ func genCase(rt *rapid.T, kind string) c13Case {
 			// still be parked in the transport
 			c.ParentCancelled = true
 			c.Parked = rapid.Bool().Draw(rt, "parked-main")
+			if c.Parked {
+				c.Packets = rapid.IntRange(1, 3).Draw(rt, "parked-request-packets")
+			}
 		}
 		if !c.Parked && rapid.IntRange(0, 3).Draw(rt, "writefails") == 0 {
 			// (the main channel's logout then fails at once instead of waiting for an answer)
